@@ -161,7 +161,7 @@ class DocGen:
         if integral:
             return ir.Poly(((float(r.randrange(0, 9)), 0), (float(r.choice([1, 2, 8])), 1)))
         nt = r.randrange(1, 4)
-        return ir.Poly(tuple((round(r.uniform(-50, 50), 3) if r.random() < 0.8 else float(r.randrange(-3, 4)), e)
+        return ir.Poly(tuple((round(r.uniform(-50, 50), 3) if r.random() < 0.6 else r.uniform(-50, 50) / 3 if r.random() < 0.5 else float(r.randrange(-3, 4)), e)
                              for e in r.sample(list(range(max_exp + 1)), min(nt, max_exp + 1))))
 
     def spline(self, enc):
